@@ -144,6 +144,14 @@ pub fn run_case(case: &Case, prep: &Prepared, spec: SchedSpec, max_steps: usize,
     argv.extend(case.run_flags.iter().cloned());
     let out = if case.save_problems {
         let d = scratch.fresh_dir("out");
+        if case.stale_out {
+            for (n, c) in &prep.reference {
+                let mut stale = b"% left behind by an earlier task\n".to_vec();
+                stale.extend_from_slice(c);
+                stale.extend_from_slice(b"tff(stale_tail, axiom, $false).\n");
+                let _ = fs::write(d.join(n), stale);
+            }
+        }
         argv.push("--save-problems".into());
         argv.push(d.to_string_lossy().into_owned());
         Some(d)
